@@ -137,6 +137,8 @@ def _worker(args):
 
 
 DRIFT = {}
+THOROUGH_BOOST = {"C01": 2, "C03": 2, "C04": 4, "C05": 5, "C08": 2, "C09": 4, "C12": 2, "C13": 2, "C14": 4, "C15": 3,
+                  "C16": 4, "C17": 12, "C18": 4, "C19": 3, "C20": 2}
 
 
 def run_shards(fn_mod, fn_name, pid, seed, nshards, ncases_per_shard, tier, extra=None, procs=None):
@@ -149,6 +151,12 @@ def run_shards(fn_mod, fn_name, pid, seed, nshards, ncases_per_shard, tier, extr
     sc, changed = anchors.scale(pid, common.REPO, tier)
     DRIFT[pid] = {"anchored_files_changed_since_lock": changed, "case_count_scale": sc}
     ncases_per_shard = int(math.ceil(ncases_per_shard * sc))
+    if tier == "thorough":
+        # the thorough tier is "as deep as we can build": per-property multipliers bring every check to roughly
+        # 5-10 minutes of exploration on 16 cores (measured on the unchanged tree; VERIF_THOROUGH_BOOST=1 switches off)
+        boost = THOROUGH_BOOST.get(pid, 1) if os.environ.get("VERIF_THOROUGH_BOOST", "") != "1" else 1
+        ncases_per_shard *= boost
+        DRIFT[pid]["thorough_boost"] = boost
     jobs = [(fn_mod, fn_name, pid, seed, s, ncases_per_shard, tier, extra) for s in range(nshards)]
     if procs <= 1:
         outs = [_worker(j) for j in jobs]
